@@ -34,7 +34,7 @@ theorem hinv_step {w : Ords} (hw : w.OK) {sel : Bool} {es : List (Tid × Ev)} {s
     HInv w sel (es ++ [(t, e)]) s' := by
   have hnd := not_inDtor hi hdt t
   exact ⟨SCD_step h.scd hS, NP_step hi hnd h.np hS, FV_step hi hdt hnd h.np h.fv hS,
-    RN_step hw hi hi' hnd h.scd h.np h.fv h.rn hS, TR1_step hi' hnd h.tr1 hS, IP_step hnd h.ip hS,
+    RN_step hw hi hi' hnd h.scd h.np h.fv h.rn hS, TR1_step hi hnd h.tr1 hS, IP_step hnd h.ip hS,
     RP_step hi hi' hnd h.tr1 h.rk h.rp hS, RK_step hw hi hi' hnd h.scd h.ip h.rp h.rk hS⟩
 
 theorem run_snoc {es : List (Tid × Ev)} {t : Tid} {e : Ev} {s' : St} (h : run (es ++ [(t, e)]) = some s') :
